@@ -102,6 +102,7 @@ structure InvOps (I : VF → Prop) : Prop where
   makeReady : ∀ s, I s → I (makeDecodeReady.run s).2
   restart : ∀ s, I s → I (restartDec.run s).2
   select : ∀ s, I s → ∀ link, I (selectLinkF link s)
+  lapout : ∀ s, I s → I (lapoutVF s)
   link : ∀ s, I s → ∀ serial link, linkOf s serial = some link → ∀ o,
     I { s with current_serialno := serial, current_link := (link : Int), os := o, ready := STREAMSET }
   take : ∀ s, I s → ∀ n, I (readTake s n).2
@@ -547,6 +548,87 @@ theorem inv_pcmSeek_raw (ph : Phys) (pos : Int) (s : VF) (hs : I s) : I ((pcmSee
     · exact h2
     · exact pres_pcmSeekTail ops ph pos _ h2
 
+theorem pres_initset (ph : Phys) : ∀ f, Pres I (initset ph f) := by
+  intro f
+  induction f with
+  | zero => unfold initset; exact pres_pure _
+  | succ f ih =>
+      unfold initset
+      apply pres_get_bind
+      intro s hs
+      refine (?_ : Pres I _) s hs
+      apply pres_ite
+      · exact pres_pure _
+      · apply pres_bind _ _ (pres_fetchAndProcess ops ph true false _)
+        intro r
+        apply pres_ite
+        · exact pres_pure _
+        · exact ih
+
+theorem pres_initprime (ph : Phys) : ∀ f, Pres I (initprime ph f) := by
+  intro f
+  induction f with
+  | zero => unfold initprime; exact pres_pure _
+  | succ f ih =>
+      unfold initprime
+      apply pres_get_bind
+      intro s hs
+      simp only []
+      refine (?_ : Pres I _) s hs
+      apply pres_ite
+      · exact pres_pure _
+      · apply pres_bind _ _ (pres_fetchAndProcess ops ph true true _)
+        intro r
+        apply pres_ite
+        · exact pres_pure _
+        · exact ih
+
+theorem pres_getlap (ph : Phys) (lapsize : Int) : ∀ f c, Pres I (getlap ph lapsize f c) := by
+  intro f
+  induction f with
+  | zero => intro c; unfold getlap; exact pres_pure _
+  | succ f ih =>
+      intro c
+      unfold getlap
+      apply pres_ite
+      · exact pres_pure _
+      · apply pres_get_bind
+        intro s hs
+        simp only []
+        split
+        · exact pres_pure _ s hs
+        · rename_i d hd
+          refine (?_ : Pres I _) s hs
+          apply pres_ite
+          · apply pres_bind _ _ _ (fun _ => ih _)
+            apply pres_set
+            exact (ops.vdSome s hs _ s.lapped : I { s with vd := some _ })
+          · apply pres_bind _ _ (pres_fetchAndProcess ops ph true false _)
+            intro r
+            apply pres_ite
+            · exact pres_pure _
+            · exact ih _
+
+theorem pres_doLapout : Pres I doLapout := pres_modify _ (fun v hv => ops.lapout v hv)
+
+theorem pres_getlapFull (ph : Phys) (lapsize : Int) : Pres I (getlapFull ph lapsize) := by
+  unfold getlapFull
+  apply pres_bind _ _ (pres_getlap ops ph lapsize _ _)
+  intro c
+  apply pres_ite
+  · exact pres_doLapout ops
+  · exact pres_pure _
+
+theorem pres_lapPrefix (ph : Phys) : Pres I (lapPrefix ph) := by
+  unfold lapPrefix
+  apply pres_bind _ _ (pres_initset ops ph _)
+  intro r
+  apply pres_ite
+  · exact pres_pure _
+  · apply pres_get_bind
+    intro s hs
+    exact pres_bind _ _ (pres_getlapFull ops ph _) (fun _ => pres_pure _) s hs
+
 end generic
 
 theorem linkOf_spec (vf : VF) (serial : Int) (link : Nat) (h : linkOf vf serial = some link) : vf.serialnos[link]! = serial := by
@@ -609,6 +691,16 @@ theorem sinvOps : InvOps SInv where
   vdKeep := fun _ h _ hv _ _ => ⟨h.1, ⟨h.2.1.1, fun hr => hv (h.2.1.2.1 hr), h.2.1.2.2⟩, h.2.2⟩
   decodeClear := fun s h => ⟨h.1, wf_decodeClear s, by show OPENED ≤ OPENED; decide⟩
   makeReady := fun s h => ⟨by rw [makeDecodeReady_seekable]; exact h.1, wf_makeDecodeReady s h.2.1, makeDecodeReady_ready s h.2.2⟩
+  lapout := fun s h => by
+    unfold lapoutVF
+    split
+    · exact h
+    · refine ⟨h.1, ⟨h.2.1.1, fun hr => ?_, h.2.1.2.2⟩, h.2.2⟩
+      have := h.2.1.2.1 hr
+      show (s.vd.map (fun d => (File.lapout (sizesOf s) s.hs d).1)).isSome = true
+      cases hv : s.vd with
+      | none => rw [hv] at this; exact absurd this (by decide)
+      | some d => rfl
   select := fun s h link => ⟨by unfold selectLinkF; split <;> exact h.1, wf_selectLinkF link s h.2.1, by
     unfold selectLinkF
     split
@@ -669,6 +761,7 @@ theorem jOps (s0 : VF) : InvOps (J s0) where
   decodeClear := fun s h => ⟨sinvOps.decodeClear s h.1, sameFile_trans h.2 ⟨rfl, rfl, rfl, rfl, rfl, rfl, rfl, rfl⟩⟩
   makeReady := fun s h => ⟨sinvOps.makeReady s h.1, sameFile_trans h.2 (same_makeDecodeReady s)⟩
   restart := fun s h => ⟨sinvOps.restart s h.1, sameFile_trans h.2 ⟨rfl, rfl, rfl, rfl, rfl, rfl, rfl, rfl⟩⟩
+  lapout := fun s h => ⟨sinvOps.lapout s h.1, sameFile_trans h.2 (by unfold lapoutVF; split <;> exact ⟨rfl, rfl, rfl, rfl, rfl, rfl, rfl, rfl⟩)⟩
   select := fun s h link => ⟨sinvOps.select s h.1 link, sameFile_trans h.2 (by unfold selectLinkF; split <;> exact ⟨rfl, rfl, rfl, rfl, rfl, rfl, rfl, rfl⟩)⟩
   link := fun s h serial link hl o => ⟨sinvOps.link s h.1 serial link hl o, sameFile_trans h.2 ⟨rfl, rfl, rfl, rfl, rfl, rfl, rfl, rfl⟩⟩
   take := fun s h n => ⟨sinvOps.take s h.1 n, sameFile_trans h.2 ⟨rfl, rfl, rfl, rfl, rfl, rfl, rfl, rfl⟩⟩
